@@ -107,7 +107,9 @@ def elementary(rng, kinds=None):
     if k == 'sq':
         # ellipsoids / elliptic cylinders / hyperboloids negative at their own centre
         a, b, cc = rng.choice([(1., 2., 3.), (1., 1., 0.), (4., 1., 1.), (1., -1., 2.), (2., 0., 1.)])
-        return 'sq', [a, b, cc, 0., 0., 0., -rng.choice([4., 9., 16.]), c(), c(), c()]
+        # linear terms D, E, F (all three, so that every term of the expansion about the reference point matters)
+        lin = [rng.choice([0.5, -0.25, 0.75, -1.0]) for _ in range(3)] if rng.random() < 0.35 else [0., 0., 0.]
+        return 'sq', [a, b, cc] + lin + [-rng.choice([4., 9., 16.]), c(), c(), c()]
     if k == 'gq':
         # rotated ellipsoid: x² + y² + z² + xy - R
         base = rng.choice([
